@@ -125,6 +125,19 @@ func runC10(c *engine.Ctx, tier string) {
 		Require: "!(@CFG.Status.State == config/v2.ConfigurationStatus_SYNCHRONIZING) && !(@CFG.Status.Applied.Mastership.Term < @CFG.Status.Mastership.Term)",
 		Why:     "no new change is sent in a term before the previously applied configuration was re-sent in that term"})
 	connLifecycle(c)
+	// the target controller: a target in topo is connected to, a target that left is disconnected from, failures are retried
+	saved := c.Al
+	c.Al = engine.NewAliases(c.P, "TGTE", "call:store/topo.Store.Get($ID.Value.(topo.ID))")
+	connect, disconnect := "southbound/gnmi.ConnManager.Connect", "southbound/gnmi.ConnManager.Disconnect"
+	c.Outcome(engine.Outcome{ID: "C10.7a", Pkg: pkgTargetCtl, Root: "Reconciler.Reconcile", Min: 1, When: "err(@TGTE) == nil",
+		Must: []engine.Sel{{Call: connect}}, MustNot: []engine.Sel{{Call: disconnect}}, Why: "a target that exists in topo is connected to"})
+	c.Outcome(engine.Outcome{ID: "C10.7b", Pkg: pkgTargetCtl, Root: "Reconciler.Reconcile", Min: 1, When: "#errIs(store/topo.Store.Get|errors.IsNotFound)",
+		Must: []engine.Sel{{Call: disconnect}}, MustNot: []engine.Sel{{Call: connect}}, Why: "a target that left topo is disconnected from: its connection, relation and mastership go with it"})
+	c.Outcome(engine.Outcome{ID: "C10.7c", Pkg: pkgTargetCtl, Root: "Reconciler.Reconcile", Min: 1, When: "#errIsNot(" + connect + "|errors.IsAlreadyExists)",
+		Returns: "err!=nil", Why: "a failed connection attempt makes the pass fail so that it is retried: otherwise an unreachable device is never connected to again"})
+	c.Outcome(engine.Outcome{ID: "C10.7d", Pkg: pkgTargetCtl, Root: "Reconciler.Reconcile", Min: 1, When: "#errIsNot(store/topo.Store.Get|errors.IsNotFound)",
+		Returns: "err!=nil", MustNot: []engine.Sel{{Call: connect}, {Call: disconnect}}, Why: "a topo failure is not taken for 'the target left'"})
+	c.Al = saved
 }
 
 // arbitration: the request passed to Client.Set had a MasterArbitration extension appended whose
